@@ -87,6 +87,21 @@ Theorem C17_ical_utc_posix : forall r ds,
 Proof. exact ical_utc_posix. Qed.
 Print Assumptions C17_ical_utc_posix.
 
+(* F-C17-1 as a theorem about the faithful model: NEGATIVE saving (the Irish rule; wf and guard_d8 hold,
+   the saving is the failing clause).  Half an hour before the transition into the lower offset the
+   VTIMEZONE zone converts UTC to a wall reading (w) with an offset (off) that do not denote the instant,
+   while the tzstr zone of the same rule reports the POSIX answer: tzical DIFFERS from tzstr there *)
+Theorem C17_ical_negative_dst_refuted :
+  exists r ds y0 n u z o w f off d nm,
+    r.(p_dst) = Some ds /\ wf_posix r = true /\ guard_d8 r = true /\ ds.(d_off) < r.(p_off) /\
+    in_range y0 n (u - DAY) /\ in_range y0 n (u + DAY) /\
+    tzstr_init (render_posix r) false = Ok z /\ observe_utc z u = Ok o /\
+    ic_observe_utc [comp_daylight r ds y0 n; comp_standard r ds y0 n] u = Ok (w, f, off, d, nm) /\
+    w <> o.(o_wall) /\ w - off <> u /\
+    (o.(o_wall), o.(o_off)) = (u + fst (fst (posix_observe r u)), fst (fst (posix_observe r u))).
+Proof. exact ical_negative_dst_refuted_lemma. Qed.
+Print Assumptions C17_ical_negative_dst_refuted.
+
 (* before the first onset of every component the first STANDARD component applies, else the
    first component (the code after fix 7ee86cc) *)
 Theorem C17_before_first_onset : forall cs w f,
